@@ -645,10 +645,21 @@ package server
 //@ lockinv cursorManager.mu guards ghost.curStored, ghost.curCached, ghost.curCacheVal serves C11: forall k string :: ghost.curCached[k] ==> ghost.curCacheVal[k] == ghost.curStored[k]
 // reading the cursors partition back (reverse scan from the latest committed message) - assumed here; the pieces it
 // relies on are under contract elsewhere (reverse scanner start: C08/C10; subscription range: C10)
-//@ assume func (*cursorManager).getLatestCursorOffset
+//@ ghost var keyMatched bool
+//@ ghost var decodedOK bool
+//@ func (*cursorManager).getLatestCursorOffset serves C11
 //@   returns (off, err)
-//@   modifies nothing
-//@   ensures err == nil ==> off == ghost.curStored[str(cursorKey)]
+//@   requires c != nil && partition != nil
+//@   ensures assumed [reads-what-the-stream-holds] err == nil ==> off == ghost.curStored[str(cursorKey)]
+// what IS proved of the scan: it reads the cursors partition of this cursor backwards from the latest message;
+// only a message whose key equals the cursor's key is decoded, and it is that message's value that is decoded;
+// the cache is not touched (it is written by SetCursor / GetCursor under the lock only)
+//@   call SubscribeInternal requires [reverse-from-latest-of-the-cursors-partition] arg2.Stream == cursorsStream && arg2.Partition == partition.Partition.Id && arg2.StartPosition == client.StartPosition_LATEST && arg2.Reverse
+//@   ghost after call Equal: ghost.keyMatched := ret0
+//@   call Equal requires [compares-with-the-cursor-key] arg1 == cursorKey || arg0 == cursorKey
+//@   call Unmarshal requires [decodes-only-the-matching-message] ghost.keyMatched
+//@ callers lib.(*github.com/hashicorp/golang-lru.Cache).Add serves C11: (*cursorManager).SetCursor, (*cursorManager).GetCursor
+//@ callers lib.(*github.com/hashicorp/golang-lru.Cache).Purge serves C11: (*cursorManager).BecomePartitionLeader
 // SetCursor: the cursor is published with the cursor's key to the cursors partition with ack policy ALL, and the
 // cache is updated only after the publish succeeded, under the same lock, with the value that was published
 //@ func (*cursorManager).SetCursor serves C11
